@@ -62,5 +62,10 @@ theorem C02_src_zero_miss (r : Run α) (zd : α) (fuel skipFuel : Nat) (e : α) 
     zeroMiss r zd fuel skipFuel e = .ok (rowMiss r.proj.lookAngle row) := by
   unfold zeroMiss; rw [h]; rfl
 
+/-- `Calculator.barrel_elevation_for_target` / `set_weapon_zero`: what is stored is the total elevation returned by `zero_angle` minus
+    the look angle (and only when `zero_angle` returned: the assignment `shot.weapon.zero_elevation = …` follows the call, matched
+    structurally) — the `storedZero` of `C02_failed_zero_leaves_weapon` -/
+theorem C02_src_stored_zero (total look : α) : Src.stored_zero total look = total - look := rfl
+
 end
 end BC.Props.C02
